@@ -22,7 +22,7 @@ claim("C04", "exhaustive finite order-abstraction evaluation of guards over SSA 
       "atoms (comparison-only control is enforced, so the case split is exhaustive): Store <=> inRange && (!found || new >= cur), TrackOffset(vbID, offset) "
       "immediately after every Store and never otherwise, no effect when out of range; In <=> Start <= vbID <= End; Open derives the range from the first/last "
       "assigned vBucket; every map operation of the writer is keyed by its vbID parameter; no other writer exists. NOT decided: concurrent acknowledgements of the "
-      "same vBucket (excluded by the property), memory-model visibility of plain flags. ALSO DECIDED (added after the second round of seeded changes): every wrapper's Offset is a fresh literal of its own event and no offset value is reused in a long-lived location; the dump writes the tracked seqNo for every tracked vBucket.", "DESIGN.md §3 C04")
+      "same vBucket (excluded by the property), memory-model visibility of plain flags. ALSO DECIDED (added after the second round of seeded changes): every wrapper's Offset is a fresh literal of its own event and no offset value is reused in a long-lived location; the dump writes the tracked seqNo for every tracked vBucket; no struct field other than the owner's holds a second long-lived reference to the position map.", "DESIGN.md §3 C04")
 
 claim("C05", "order-abstraction evaluation of the dirty protocol, dominance/path rules, error-flow taint, narrow lockset",
       "Decides the dirty-tracking protocol: every dirtying settle raises the save flag; the dirty mark is written iff the position moved with dirty=true and is "
@@ -129,8 +129,8 @@ claim("C16", "SSA descriptor/value/label tables, dominance rule on the unsigned 
 
 claim("C17", "control-dependence rules on every defaulting store, override tables keyed by yaml tags, constant-multiplier table of the unit switch",
       "Decides the structure of configuration defaulting: each of the 27+ defaulting stores is control-dependent on the zero-test of the very field it writes, on "
-      "nothing else, and stores a non-zero value (explicit values preserved, idempotent); the two environment overrides are the only other stores - after the "
-      "default, guarded only by Getenv!=\"\", value Atoi(Getenv); in the three derived-settings getters every Config[K] lookup assigns exactly the field whose "
+      "nothing else, and stores a non-zero value (explicit values preserved, idempotent); the two environment overrides are the only other stores, and their behaviour "
+      "is decided by exhaustive abstract evaluation of the defaulting step (2400 states): variable set => field = Atoi(variable) or the process stops when it is not an integer; unset => configured value kept, else non-zero default; in the three derived-settings getters every Config[K] lookup assigns exactly the field whose "
       "yaml tag is K from that lookup, no field is recomputed after overrides, inherited fields copy the like-named main-connection field; the unit switch "
       "returns int(parsedFloat x 1024^k) with the conversion after the multiplication, numeric part = all but the last two bytes trimmed with comma->point. "
       "the ${VAR} substitution replaces every occurrence of exactly '${'+name+'}' by LookupEnv(name) only when set, over all matches, and the substituted text is what is parsed. NOT decided: the documented default values themselves, float truncation, regex matching semantics.", "DESIGN.md §3 C17")
